@@ -2,7 +2,7 @@
 C05 -- dynamic initialisation is an equilibrium consistent with the power flow (partial).
 Functions under contract: TDS.test_init (the residual test), TDS.init (hand-over of the power-flow solution, recording of the
 test); block initial values balance the block equations (steady-state obligations shared with C18).
-Not decided: per-model equilibrium of the ~60 dynamic models, P/Q hand-over per generator model, undisturbed-run drift,
+Not decided: per-model equilibrium of the ~60 dynamic models, undisturbed-run drift (bounded stand-ins only),
 Model.solve_iter_single (aliasing between input dictionaries and argument lists).
 """
 from contracts import fn_tds as T
@@ -23,6 +23,9 @@ def run(tier, seed):
     from contracts import fn_handover as H
     run_contracts(pack, [(H.genbase_v_numeric('C05'), None, H.replay_genbase_v_numeric), (H.solve_iter_c('C05'), None, H.replay_solve_iter)])
     C18.run(tier, seed, prefix='C05', want=('SS',), pack=pack)
+    # P / Q hand-over: each dynamic device takes its declared share of the static generator it replaces
+    from contracts import specutil as U
+    U.generator_shares(pack, 'C05', U.system())
     from contracts import fn_handover as H2
     H2.bounded_flat_run(pack, 'C05', tier)
     from contracts.packutil import native_guard
